@@ -19,16 +19,17 @@ import (
 // same-package helper called from it with the connection, the entry's DB and
 // the tracker as arguments and the tracker as result.
 type selScope struct {
-	c       *core.Ctx
-	short   string
-	info    *types.Info
-	g       *cfgq.Graph
-	start   cfgq.Point
-	head    *cfg.Block // loop head; nil: the region ends at the function's normal exits
-	scope   ast.Node
-	conn    types.Object
-	tracker types.Object
-	entryDB func(ast.Expr) bool
+	c        *core.Ctx
+	short    string
+	info     *types.Info
+	g        *cfgq.Graph
+	start    cfgq.Point
+	head     *cfg.Block // loop head; nil: the region ends at the function's normal exits
+	scope    ast.Node
+	conn     types.Object
+	tracker  types.Object
+	entryDB  func(ast.Expr) bool
+	carriers map[types.Object][]carrierDef
 }
 
 func (s *selScope) src(e ast.Expr) string {
@@ -37,8 +38,122 @@ func (s *selScope) src(e ast.Expr) string {
 		return "TargetDB"
 	case s.entryDB(Strip(s.info, e)):
 		return "entry.DB"
+	case len(s.carrier(e)) > 0:
+		return "wanted" // a local that carries the wanted database; its definitions are judged by wantedOK
 	}
 	return ""
+}
+
+// carrierDef is one definition of a local that carries the wanted database.
+type carrierDef struct {
+	at   cfgq.Point
+	name string // "TargetDB" or "entry.DB"
+}
+
+// carrier: e is a local variable (not the tracker) all of whose definitions in the scope are TargetDB or the
+// entry's DB (`wantdb := int(e.DB); if TargetDB != -1 { wantdb = TargetDB }`). Returns its definitions.
+func (s *selScope) carrier(e ast.Expr) []carrierDef {
+	id, ok := Strip(s.info, e).(*ast.Ident)
+	if !ok {
+		return nil
+	}
+	v, ok := core.ObjOf(s.info, id).(*types.Var)
+	if !ok || v.IsField() || v == s.tracker || v == s.conn || v.Pkg() == nil || v.Parent() == v.Pkg().Scope() {
+		return nil
+	}
+	if s.carriers == nil {
+		s.carriers = map[types.Object][]carrierDef{}
+	}
+	if d, ok := s.carriers[v]; ok {
+		return d
+	}
+	s.carriers[v] = nil
+	var defs []carrierDef
+	okAll := true
+	direct := func(r ast.Expr) string {
+		switch {
+		case r == nil:
+		case isTargetDB(s.info, r):
+			return "TargetDB"
+		case s.entryDB(Strip(s.info, r)):
+			return "entry.DB"
+		}
+		return ""
+	}
+	for _, p := range s.g.Points(func(n ast.Node) bool { return Within(n, s.scope) }) {
+		var rhs ast.Expr
+		hit := false
+		switch x := p.Node().(type) {
+		case *ast.AssignStmt:
+			if as, r := AssignsTo(s.info, x, v); as != nil {
+				rhs, hit = r, true
+			}
+		case *ast.ValueSpec:
+			for i, nm := range x.Names {
+				if s.info.Defs[nm] == types.Object(v) {
+					hit = true
+					if i < len(x.Values) {
+						rhs = x.Values[i]
+					}
+				}
+			}
+		}
+		if !hit {
+			continue
+		}
+		if n := direct(rhs); n != "" {
+			defs = append(defs, carrierDef{p, n})
+		} else {
+			okAll = false
+		}
+	}
+	if !okAll || len(defs) == 0 {
+		return nil
+	}
+	// unlike the tracker (state carried over from the previous entry), a carrier is (re)defined before every use
+	isDef := func(n ast.Node) bool {
+		for _, d := range defs {
+			if d.at.Node() == n {
+				return true
+			}
+		}
+		return false
+	}
+	for _, p := range s.g.Points(func(n ast.Node) bool { return Within(n, s.scope) && !isDef(n) && core.Mentions(s.info, n, v) }) {
+		if s.g.Path(cfgq.Query{From: s.start, Avoid: isDef, Target: IsNode(p.Node())}) != nil {
+			return nil
+		}
+	}
+	s.carriers[v] = defs
+	return defs
+}
+
+// wantedOK: at site p the carrier e holds TargetDB exactly when TargetDB != -1 and the entry's DB otherwise:
+// every definition either executes only under the matching configuration, or reaches p only through an edge
+// that establishes it (the other definition kills it on the other edge).
+func (s *selScope) wantedOK(e ast.Expr, p cfgq.Point) (bool, []string) {
+	defs := s.carrier(e)
+	isDef := func(n ast.Node) bool {
+		for _, d := range defs {
+			if d.at.Node() == n {
+				return true
+			}
+		}
+		return false
+	}
+	for _, d := range defs {
+		want := d.name == "TargetDB"
+		match := func(f cfgq.Fact) bool { return TargetDBSet(s.info, f, want) }
+		if ok, _ := s.onlyVia(d.at, match); ok {
+			continue
+		}
+		w := s.g.Path(cfgq.Query{From: d.at, After: true, Avoid: isDef, Target: IsNode(p.Node()),
+			AvoidEdge: func(b *cfg.Block, i int) bool { return EdgeFact(s.g, b, i, match) }})
+		if w != nil {
+			return false, w
+		}
+	}
+	return true, nil
 }
 
 func (s *selScope) cmp(e ast.Expr) string {
@@ -52,6 +167,18 @@ func (s *selScope) cmp(e ast.Expr) string {
 		}
 	}
 	return ""
+}
+
+// cmpOther returns the operand compared with the tracker.
+func (s *selScope) cmpOther(e ast.Expr) ast.Expr {
+	be, _ := ast.Unparen(e).(*ast.BinaryExpr)
+	if be == nil {
+		return nil
+	}
+	if core.ObjOf(s.info, Strip(s.info, be.X)) == s.tracker {
+		return be.Y
+	}
+	return be.X
 }
 
 // trackerIn finds the single local variable compared with TargetDB / the entry's DB under scope.
@@ -283,6 +410,10 @@ func (s *selScope) rules() {
 			ok, wpath := s.onlyVia(sp, func(f cfgq.Fact) bool { return TargetDBSet(info, f, want) })
 			c.Check("R2.source", key, call.Pos(), ok,
 				"the database selected must be TargetDB exactly when TargetDB != -1 and the entry's own DB otherwise; here "+name+" is selected on a path where the configuration says the opposite, so keys land in the wrong database", wpath...)
+		case "wanted":
+			ok, wpath := s.wantedOK(src, sp)
+			c.Check("R2.source", key, call.Pos(), ok,
+				"the database selected must be TargetDB exactly when TargetDB != -1 and the entry's own DB otherwise; the local that carries it can hold the other one here, so keys land in the wrong database", wpath...)
 		default:
 			c.Undecidedf("R2.source", key, call.Pos(), "selected value `%s` is neither TargetDB nor the entry's DB", c.Src(call.Args[1]))
 		}
@@ -309,7 +440,12 @@ func (s *selScope) rules() {
 		for _, f := range append(cfgq.Facts(p.Node().(ast.Expr), true), cfgq.Facts(p.Node().(ast.Expr), false)...) {
 			if name := s.cmp(f.Expr); name != "" {
 				want := name == "TargetDB"
-				ok, wpath := s.onlyVia(p, func(f cfgq.Fact) bool { return TargetDBSet(info, f, want) })
+				ok, wpath := false, []string(nil)
+				if name == "wanted" {
+					ok, wpath = s.wantedOK(s.cmpOther(f.Expr), p)
+				} else {
+					ok, wpath = s.onlyVia(p, func(f cfgq.Fact) bool { return TargetDBSet(info, f, want) })
+				}
 				c.Check("R2.guard", short+"/cmp:"+name, p.Node().Pos(), ok,
 					"the tracker is compared with "+name+" on a path where the configuration dictates the other database: SELECT is skipped although the connection is not on the wanted database", wpath...)
 				break
